@@ -18,6 +18,7 @@ Act(e) == CASE e.act = "k2e_file" -> K2EFile(e.p, e.out, OUTE)
             [] e.act = "k2e_dir"  -> K2EDir(e.p[1], e.rec)
             [] e.act = "e2k_dir"  -> E2KDir(e.p[1], e.rec)
             [] e.act = "dump"     -> Dump(e.p)
+            [] e.act = "dump_opts" -> DumpOpts(e.p)
 TInitEv == /\ l = 1 /\ Ev.ev = "init" /\ l' = 2 /\ UNCHANGED <<tid, fails>>
            /\ fs' = FsOf(Ev.snap) /\ last' = NoAct
 TAct == /\ l > 1 /\ l <= Len(Log[tid]) /\ Ev.ev = "act" /\ l' = l + 1 /\ UNCHANGED tid
